@@ -343,7 +343,30 @@ func (g *G) BadAttestation(label string, message []byte) ([]byte, string) {
 	if t > 40 || t < 0 {
 		t = 40 // hostile genesis thresholds: keep generated attestations small
 	}
-	switch k := g.Int(label+"/class", 0, 10); {
+	switch k := g.Int(label+"/class", 0, 12); {
+	case k == 11 && good != nil && t >= 1:
+		// a recovery byte outside {0,1,27,28} that has the right parity: v+2j or v+27+2j (30, 35, 253, ...)
+		b := append([]byte{}, good...)
+		i := g.Int(label+"/vslot", 0, t-1)*65 + 64
+		par := b[i]
+		if par >= 27 {
+			par -= 27
+		}
+		b[i] = Pick(g, label+"/vodd", []byte{2, 4, 26, 29, 31, 35, 37, 55, 128, 254})
+		if b[i]%2 != (par+b[i]/27)%2 { // keep "the parity a lenient normalisation would arrive at"
+			b[i]++
+		}
+		return b, "odd-recovery-byte"
+	case k == 12 && good != nil && t >= 1 && len(ks) >= t:
+		// the quorum signs a value derived from the message that is not its Keccak-256 digest
+		kind := Pick(g, label+"/derived", attest.DerivedKinds)
+		sub := append([]*attest.Key{}, ks[:t]...)
+		attest.SortByAddr(sub)
+		var b []byte
+		for _, key := range sub {
+			b = append(b, attest.SignDigest(attest.DerivedDigest(kind, message), key, attest.SigStyle{})...)
+		}
+		return b, "derived-digest"
 	case k == 9 && good != nil && t >= 1 && len(ks) >= t:
 		// a formerly enabled, since disabled key in one slot (else an unknown key)
 		x := attest.K(20 + g.Int(label+"/u", 0, 5))
